@@ -4,11 +4,11 @@ package main
 
 import (
 	"fmt"
-	"os"
-	"sync"
 	"go/types"
+	"os"
 	"sort"
 	"strings"
+	"sync"
 
 	"golang.org/x/tools/go/ssa"
 )
@@ -17,9 +17,9 @@ var branchProf map[string]int
 var branchProfMu sync.Mutex
 
 type Draw struct {
-	Kind  string  `json:"k"` // byte, u16, u32, u64, bool, bytes, len, choice
-	N     int     `json:"n,omitempty"`
-	terms []*Term // for symbolic draws
+	Kind  string   `json:"k"` // byte, u16, u32, u64, bool, bytes, len, choice
+	N     int      `json:"n,omitempty"`
+	terms []*Term  // for symbolic draws
 	Val   []uint64 `json:"v"` // concrete values (filled from prefix or model)
 }
 
@@ -60,33 +60,33 @@ type Exec struct {
 	out *PathResult
 
 	// stub state
-	metrics  []metricEvent
-	randCalls int
-	clock    *Term
-	retryBound int
-	nHash    int
-	funcsSeen map[*ssa.Function]bool
-	observed []string
-	reached  map[string]bool
-	assertsSeen map[string]int
-	params map[string]int
-	nCtx int
-	fp *footprint
-	where string
-	lastConflict string
-	udp *udpState
+	metrics        []metricEvent
+	randCalls      int
+	clock          *Term
+	retryBound     int
+	nHash          int
+	funcsSeen      map[*ssa.Function]bool
+	observed       []string
+	reached        map[string]bool
+	assertsSeen    map[string]int
+	params         map[string]int
+	nCtx           int
+	fp             *footprint
+	where          string
+	lastConflict   string
+	udp            *udpState
 	blockedForever bool
-	watchdogLabel string
-	curFrame      *frame // the frame of the call being dispatched (for stubs that call back into the program)
-	hmacApps map[string][]*Term
-	curPos string
-	randLog [][]*Term
-	retryAttempts int
-	pcSetNames map[string]bool
+	watchdogLabel  string
+	curFrame       *frame // the frame of the call being dispatched (for stubs that call back into the program)
+	hmacApps       map[string][]*Term
+	curPos         string
+	randLog        [][]*Term
+	retryAttempts  int
+	pcSetNames     map[string]bool
 	pkgInitStarted map[*ssa.Package]bool
-	curDeferFrame []*frame
-	writeLog map[*Value]bool
-	inHarness bool
+	curDeferFrame  []*frame
+	writeLog       map[*Value]bool
+	inHarness      bool
 }
 
 type metricEvent struct {
